@@ -70,7 +70,9 @@ def run(prog, R):
     for a_, bs_ in cg.items():
         for b_ in bs_:
             callers.setdefault(b_, set()).add(a_)
-    errh = set(p for p in reach if 'ErrorPosition' in prog.bodies[p].local_tys[0] and 'Result' not in prog.bodies[p].local_tys[0])
+    # (functions that return an error position or the error value itself - `fn report(&self, defect) -> Error`)
+    errh = set(p for p in reach if ('ErrorPosition' in prog.bodies[p].local_tys[0] or prog.bodies[p].local_tys[0].strip() in ('fasta::Error', 'fastq::Error'))
+               and 'Result' not in prog.bodies[p].local_tys[0])
     changed = True
     while changed:
         changed = False
